@@ -5,14 +5,26 @@
    exactly that index on the answering leader (C08_acknowledged_means_committed_there), and by
    C03_acknowledged_entries_are_permanent / C02_state_machine_safety_all_runs it stays the entry of
    that index on every later leader and on every server that learns the index committed.
-   PARTIAL: "never stored on any server" for the definite failures and exactly-once across restarts
-   with snapshots are checked on real histories
+   ORDER (C08_index_above_everything_acknowledged_before_the_call): cut ANY run of the cluster at a
+   dispatchLogs step; whatever any leader of any term acknowledged to a client before that step has a
+   smaller index than the entry the step creates, if that entry is ever acknowledged - with and without
+   takeSnapshot/compaction.
+   DEFINITE FAILURES (C08_rejected_calls_are_never_dispatched): over the control-flow paths that the
+   translator go/gotables extracts from raft.go / api.go on every run (Model/LoopTable.v case_paths,
+   api_paths; decision procedure Model/Paths.v): a path of a main-loop case that answers the received
+   Apply / Barrier / membership / restore future with ErrNotLeader or ErrLeadershipTransferInProgress
+   calls nothing but state readers (no dispatchLogs, appendConfigurationEntry, restoreUserSnapshot) and
+   hands the future to nobody; outside leaderLoop those queues are ONLY answered ErrNotLeader; ApplyLog /
+   Barrier / requestConfigChange return an errorFuture (ErrEnqueueTimeout, ErrRaftShutdown) only on paths
+   that did not send the future to a queue.
+   PARTIAL: the path enumeration is syntactic (order and presence of calls, not data flow); exactly-once
+   across restarts with snapshots is checked on real histories
    (monitors applied-more-than-once, applied-at-another-index, definitely-failed-command-stored,
    barrier-returned-before-earlier-entry-applied, index-not-above-earlier-acks). *)
 From Coq Require Import List NArith.
 From stdpp Require Import gmap.
-From RaftModel Require Import Base Config Commitment Node NodeCodec Leader Cluster ClusterLog ClusterCommit.
-From RaftProofs Require Import LeaderProofs ClusterCommitSpec ClusterCommitAcks2.
+From RaftModel Require Import Base Config Commitment Node NodeCodec Leader Cluster ClusterLog ClusterCommit LoopTable Paths.
+From RaftProofs Require Import LeaderProofs ClusterCommitSpec ClusterCommitSnapSpec ClusterCommitAcks2 ClusterOrderSpec ClusterOrderMain.
 Open Scope N_scope.
 
 (* whatever mix of commands, barriers and configurations a batch holds and whichever carry a
@@ -57,3 +69,46 @@ Theorem C08_acknowledged_means_committed_there : forall cfg g0 ls g l g' T e,
     v_role s' = Leader /\ v_term s' = T /\ e_idx e <= v_commit s' /\ d_log s' !! e_idx e = Some e.
 Proof. exact acks_are_committed_when_answered. Qed.
 Print Assumptions C08_acknowledged_means_committed_there.
+
+
+(* DEFINITE FAILURES, on the paths regenerated from the Go source on every run (finite table: decided by
+   computation): see the header.  rows_present guards against vacuity (the three loops and the three
+   storing queues, and the three API constructors, must be found in the source). *)
+Theorem C08_rejected_calls_are_never_dispatched : paths_ok = true.
+Proof. vm_compute. reflexivity. Qed.
+Print Assumptions C08_rejected_calls_are_never_dispatched.
+
+(* what paths_ok says, unfolded for one row: every path of every case on a storing queue *)
+Theorem C08_rejected_path_spec : forall lp q ps p,
+  In (lp, q, ps) case_paths -> mem q storing_queues = true -> In p ps ->
+  existsb is_definite_respond p = true ->
+  existsb is_effect_call p = false /\ existsb is_send p = false.
+Proof.
+  intros lp q ps p Hrow Hq Hp Hd. pose proof C08_rejected_calls_are_never_dispatched as H.
+  unfold paths_ok in H. repeat (apply Bool.andb_true_iff in H; destruct H as [H ?]).
+  match goal with Hc : forallb case_rejections_ok case_paths = true |- _ => rewrite forallb_forall in Hc; specialize (Hc _ Hrow) end.
+  match goal with Hc : case_rejections_ok _ = true |- _ => unfold case_rejections_ok in Hc; rewrite Hq in Hc; rewrite forallb_forall in Hc; specialize (Hc _ Hp);
+    unfold rejected_path_ok in Hc; rewrite Hd in Hc end.
+  match goal with Hc : _ && _ && _ = true |- _ => repeat (apply Bool.andb_true_iff in Hc; destruct Hc as [Hc ?]) end.
+  split; apply Bool.negb_true_iff; assumption.
+Qed.
+Print Assumptions C08_rejected_path_spec.
+
+Example C08_rejections_exist : rejections_exist = true.
+  (* non-vacuity: the follower loop answers applyCh with ErrNotLeader on its only path; the leader loop has a
+     rejecting path (transfer in progress) and a dispatching one *)
+Proof. vm_compute. reflexivity. Qed.
+
+
+(* ORDER, over all runs (statement: Proofs/ClusterOrderSpec.v acks_ordered; proof by a prover sub-agent,
+   Proofs/ClusterOrderCore.v: both keys are known committed, hence on one branch of the history; were the
+   new entry not above the acknowledged one it would have been created before the call - but every entry
+   of the leader's term created so far is at or below its last index). *)
+Theorem C08_index_above_everything_acknowledged_before_the_call : forall cfg g0,
+  cinit_ok cfg g0 -> acks_ordered false cfg g0.
+Proof. exact acks_ordered_all_runs. Qed.
+Print Assumptions C08_index_above_everything_acknowledged_before_the_call.
+Theorem C08_index_above_everything_acknowledged_before_the_call_with_snapshots : forall cfg g0,
+  cinit_snap_ok cfg g0 -> acks_ordered true cfg g0.
+Proof. exact acks_ordered_all_runs_snapshots. Qed.
+Print Assumptions C08_index_above_everything_acknowledged_before_the_call_with_snapshots.
